@@ -498,3 +498,105 @@ func init() {
 		}
 	})
 }
+
+func init() {
+	reg("C15-R6", "free-space tests cannot wrap: in the page-layout packages (storage/access, materialization, storage/page/…, container/hash) no ordered comparison takes an unsigned difference a − b of two run-time values as an operand unless a dominating test establishes a >= b — `free − need < limit` is true for the wrong reason when need > free, and the page write behind it runs past the page", func(w *World, r *Report) {
+		inScope := func(p string) bool {
+			for _, s := range []string{"/storage/access", "/materialization", "/storage/page", "/container/hash", "/storage/tuple"} {
+				if strings.HasPrefix(p, libMod+s) {
+					return true
+				}
+			}
+			return false
+		}
+		isUnsigned := func(t types.Type) bool {
+			b, ok := t.Underlying().(*types.Basic)
+			return ok && b.Info()&types.IsUnsigned != 0
+		}
+		nCmp := 0
+		for _, fn := range w.RepoFuncs {
+			if fn.Pkg == nil || !inScope(fn.Pkg.Pkg.Path()) || w.IsTestFunc(fn) {
+				continue
+			}
+			live := (&PathQ{Fn: fn}).ReachableInstrs() // constant-false debug blocks are not code
+			for _, b := range fn.Blocks {
+				for _, in := range b.Instrs {
+					cmp, ok := in.(*ssa.BinOp)
+					if !ok || !live[in] || (cmp.Op != token.LSS && cmp.Op != token.LEQ && cmp.Op != token.GTR && cmp.Op != token.GEQ) {
+						continue
+					}
+					for _, opnd := range []ssa.Value{cmp.X, cmp.Y} {
+						sub, ok := stripConv(opnd).(*ssa.BinOp)
+						if !ok || sub.Op != token.SUB || !isUnsigned(sub.Type()) {
+							continue
+						}
+						if _, isConst := constOf(sub.Y); isConst {
+							continue // x - constant: layout constants, decided by the layout rules
+						}
+						if _, isConst := constOf(sub.X); isConst {
+							continue
+						}
+						nCmp++
+						// a dominating test a >= b (any spelling) on the same operands
+						guarded := false
+						ax, ay := symKey(sub.X, nil, 0), symKey(sub.Y, nil, 0)
+						for d, child := b.Idom(), b; d != nil && !guarded; child, d = d, d.Idom() {
+							i := blockIf(d)
+							if i == nil {
+								continue
+							}
+							base, neg := condBase(i.Cond)
+							g, ok := base.(*ssa.BinOp)
+							if !ok {
+								continue
+							}
+							gx, gy := symKey(g.X, nil, 0), symKey(g.Y, nil, 0)
+							var geWhenTrue, known bool
+							switch {
+							case gx == ax && gy == ay && (g.Op == token.GEQ || g.Op == token.GTR):
+								geWhenTrue, known = true, true
+							case gx == ax && gy == ay && g.Op == token.LSS:
+								geWhenTrue, known = false, true
+							case gx == ay && gy == ax && (g.Op == token.LEQ || g.Op == token.LSS):
+								geWhenTrue, known = true, true
+							case gx == ay && gy == ax && g.Op == token.GTR:
+								geWhenTrue, known = false, true
+							}
+							if !known {
+								continue
+							}
+							if neg {
+								geWhenTrue = !geWhenTrue
+							}
+							want := d.Succs[0]
+							if !geWhenTrue {
+								want = d.Succs[1]
+							}
+							if (want == child || want.Dominates(child)) && len(want.Preds) == 1 {
+								guarded = true
+							}
+						}
+						r.Check(guarded, funcKey(fn)+":unsigned-difference-compared"+w.posOrdinal(fn, cmp), "an unsigned difference is compared only where it cannot wrap", "comparison at "+w.InstrPos(cmp)+" uses "+sub.X.Name()+" - "+sub.Y.Name()+" (unsigned, both run-time values) without a dominating test that the first is not smaller")
+					}
+				}
+			}
+		}
+		r.Note("unsigned-difference-comparisons-examined", "number of ordered comparisons over an unsigned difference of two run-time values", itoa(nCmp))
+	})
+}
+
+// posOrdinal numbers the BinOps of fn in block order (stable key that is not a line number).
+func (w *World) posOrdinal(fn *ssa.Function, x *ssa.BinOp) string {
+	n := 0
+	for _, b := range fn.Blocks {
+		for _, in := range b.Instrs {
+			if bo, ok := in.(*ssa.BinOp); ok && bo.Op == x.Op {
+				n++
+				if bo == x {
+					return "#" + itoa(n)
+				}
+			}
+		}
+	}
+	return ""
+}
